@@ -61,12 +61,12 @@ func lexString(ls []lex) string {
 var exprKeywords = []string{"AND", "OR", "NOT", "XOR", "LIKE", "IS", "IN", "NULL", "TRUE", "FALSE"}
 var exprMultiSymbols = []string{"<=", ">=", "<>", "!=", ">>", "<<"}
 var genericMultiSymbols = []string{"<>", "<=", ">="}
-var exprSingleSymbols = []string{"(", ")", "[", "]", "+", "-", "*", "/", "%", "^", "=", "<", ">", ",", "!", "@", "$", "&", "|", "~", ";", ":", "?", "{", "}", "\\", "`", "#", ".", "ш", "€", "Ω", "中", "￾"}
-var genericSingleSymbols = []string{"(", ")", "[", "]", "+", "-", "*", "/", "%", "^", "=", "<", ">", ",", "!", "@", "$", "&", "|", "~", ";", ":", "?", "{", "}", "\\", "`", ".", "_", "¡", "§", "¿"}
+var exprSingleSymbols = []string{"(", ")", "[", "]", "+", "-", "*", "/", "%", "^", "=", "<", ">", ",", "!", "@", "$", "&", "|", "~", ";", ":", "?", "{", "}", "\\", "`", "#", ".", "ш", "€", "Ω", "中", "￾", "\u00a0", "\u0085", "\u007f", "\u2028", "\u2029", "\u3000", "\u00bf"}
+var genericSingleSymbols = []string{"(", ")", "[", "]", "+", "-", "*", "/", "%", "^", "=", "<", ">", ",", "!", "@", "$", "&", "|", "~", ";", ":", "?", "{", "}", "\\", "`", ".", "_", "¡", "§", "¿", "\u00a0", "\u0085", "\u007f"}
 
 var latinStart = []string{"a", "b", "x", "Z", "Q", "é", "Ü", "ÿ", "À"}
 var wordCont = []string{"a", "k", "Z", "0", "7", "_", "é", "ÿ", "ш", "€", "中", "￾", "Ā"}
-var nonLatinStart = []string{"ш", "Ж", "€", "Ω", "中", "Ā", "￾"}
+var nonLatinStart = []string{"ш", "Ж", "€", "Ω", "中", "Ā", "￾", "\u2028", "\u3000", "\u212a"}
 
 type lexGen struct {
 	kind string // "expression" | "generic"
